@@ -102,6 +102,20 @@ theorem tail_sep (endsOpen last : Bool) (l : Layout) {R : List Char} (h : (endsO
 
 /-! ### loops over rendered elements -/
 
+theorem foldl_max_le (xs : List Nat) (a : Nat) : a ≤ xs.foldl max a ∧ ∀ x ∈ xs, x ≤ xs.foldl max a := by
+  induction xs generalizing a with
+  | nil => simp
+  | cons y ys ih =>
+    simp only [List.foldl_cons, List.mem_cons]
+    have := ih (max a y)
+    refine ⟨Nat.le_trans (Nat.le_max_left a y) this.1, ?_⟩
+    intro x hx
+    rcases hx with rfl | hx
+    · exact Nat.le_trans (Nat.le_max_right a x) this.1
+    · exact this.2 x hx
+
+
+
 @[simp] theorem rSlots_nil {α} (f : α → Bool → R) (l : Layout) : (rSlots f [] l).1 = [] := rfl
 theorem rSlots_cons {α} (f : α → Bool → R) (x : α) (xs : List α) (l : Layout) :
     (rSlots f (x :: xs) l).1 = (f x xs.isEmpty l).1 ++ (rSlots f xs (f x xs.isEmpty l).2).1 := rfl
